@@ -8,8 +8,8 @@ import (
 
 	"sigs.k8s.io/yaml"
 
-	chart "helm.sh/helm/v4/pkg/chart/v2"
 	"helm.sh/helm/v4/pkg/action"
+	chart "helm.sh/helm/v4/pkg/chart/v2"
 	"helm.sh/helm/v4/verifh/core"
 	"helm.sh/helm/v4/verifh/env"
 	"helm.sh/helm/v4/verifh/gen"
